@@ -19,7 +19,7 @@ CLAIMED = {
    technique="deterministic simulation: invariant monitored on every compiled circuit of seeded runs, cross-checked by real proofs"),
  "C10": dict(level="exploration", ref="DESIGN §5 C10",
    text="Fault-free control arm of the prover/verifier simulation: seeded satisfiable programs go through build, run, key generation, proving and the commitment-binding verifier node under a configuration swarm (lanes, Horner packing K, minimum height) and seeded hash order; every failing stage is keyed by a structural explanation and minimised.",
-   note="Generator only emits programs whose inputs satisfy them (checked by the reference interpreter). Verifier node = verify_all_tables + equality of preprocessed commitment with the verifier's own compilation.",
+   note="Eight circuit-proof universes (KB/BB D4, KB D4 with the hiding PCS, BB binomial D5, KB quintic D5, KB D8, KB D1, Goldilocks D2). Generator only emits programs whose inputs satisfy them (checked by the reference interpreter). Verifier node = verify_all_tables + equality of preprocessed commitment with the verifier's own compilation.",
    technique="deterministic simulation: fault-free control arm of the byzantine-prover simulator under configuration swarm and seeded hash order"),
  "C18": dict(level="exploration", ref="DESIGN §5 C18",
    text="The only scheduler in this codebase, hash iteration order, is behind a seam (patched foldhash): every corpus item is compiled, key-generated, run and proven under N seeded iteration orders in-process and in M fresh processes with natural hasher randomness; all digests (ops, numbering, maps, preprocessed columns, table order, degrees, commitment, traces, proof bytes) must be equal. A failing item is minimised and replayed from (program, seedA, seedB).",
